@@ -35,9 +35,9 @@ def stage_cfgs(tier):
 
 
 def stage_phase_cfgs(tier):
-    c = [Cfg(1, 2, MQ, phase=40), Cfg(2, 1, MQ, phase=25), Cfg(1, 2, LQ, phase=60), Cfg(1, 2, LQ, phase=0), Cfg(1, 2, LQ, phase=100), Cfg(3, 2, LQ, phase=35)]
+    c = [Cfg(1, 2, LQ, phase=40), Cfg(2, 1, LQ, phase=25), Cfg(1, 2, LQ, phase=60), Cfg(1, 2, LQ, phase=0), Cfg(1, 2, LQ, phase=100), Cfg(3, 2, LQ, phase=35)]
     if tier == 'thorough':
-        c += [Cfg(1, 2, HQ, phase=p) for p in (0, 25, 40, 49, 60, 75, 100)] + [Cfg(1, 3, VHQ, phase=42), Cfg(2, 1, VHQ, phase=40), Cfg(44100, 48000, HQ, phase=25)]
+        c += [Cfg(1, 2, MQ, phase=40), Cfg(2, 1, MQ, phase=25)] + [Cfg(1, 2, HQ, phase=p) for p in (0, 25, 40, 49, 60, 75, 100)] + [Cfg(1, 3, VHQ, phase=42), Cfg(2, 1, VHQ, phase=40), Cfg(44100, 48000, HQ, phase=25)]
     return c
 
 
